@@ -928,7 +928,8 @@ class Interp:
         except SimHang as e:
             self.fail('C01', 'hang', f'query: {e}')
         except Exception as e:
-            self.fail('C01', 'op_raised', f'query raised '
+            owner = ('C01', 'C05') if 'deferred' in self.flags else ('C01',)
+            self.fail(owner, 'op_raised', f'query raised '
                       f'{type(e).__name__}: {e}')
         self.trace.add('state', kernel.h64(
             repr(sorted((repr(k), sorted(v.items()))
